@@ -40,6 +40,8 @@ pub open spec fn part_ix(fl: Seq<bool>, want: bool) -> Seq<int> decreases fl.len
 }
 // position of index i inside part_ix(fl, fl[i])
 pub open spec fn part_pos(fl: Seq<bool>, i: int) -> int { part_ix(fl.take(i), fl[i]).len() as int }
+// (opaque: callers reason about it inside lemmas only, so that the quantifier stays out of the exec function's context)
+#[verifier::opaque]
 #[verifier::prophetic]
 pub open spec fn mutrefs_of<K, V>(v: Seq<(&K, &mut V)>, pre: Seq<(K, V)>, post: Seq<(K, V)>, ix: Seq<int>) -> bool {
     v.len() == ix.len() && forall|j: int| 0 <= j < v.len() ==> 0 <= #[trigger] ix[j] < pre.len()
@@ -96,17 +98,22 @@ pub proof fn lemma_part_ix(fl: Seq<bool>, want: bool)
 //   post[i] == pre[perm[i]],  pre[k] == post[inv[k]]
 pub uninterp spec fn idiom_shuffle_perm<T>(pre: Seq<T>, post: Seq<T>) -> Seq<int>;
 pub uninterp spec fn idiom_shuffle_inv<T>(pre: Seq<T>, post: Seq<T>) -> Seq<int>;
+#[verifier::opaque]
 pub open spec fn is_perm_pair(p: Seq<int>, q: Seq<int>, n: int) -> bool {
     p.len() == n && q.len() == n
     && (forall|i: int| 0 <= i < n ==> 0 <= #[trigger] p[i] < n && q[p[i]] == i)
     && (forall|k: int| 0 <= k < n ==> 0 <= #[trigger] q[k] < n && p[q[k]] == k)
+}
+#[verifier::opaque]
+pub open spec fn idiom_shuffled<T>(pre: Seq<T>, post: Seq<T>, perm: Seq<int>) -> bool {
+    post.len() == pre.len() && forall|i: int| 0 <= i < pre.len() ==> #[trigger] post[i] == pre[perm[i]]
 }
 #[verifier::external_body]
 pub fn idiom_shuffle<T>(v: &mut Vec<T>, rng: &mut Box<dyn RngCore>)
     ensures
         final(v)@.len() == old(v)@.len(),
         is_perm_pair(idiom_shuffle_perm(old(v)@, final(v)@), idiom_shuffle_inv(old(v)@, final(v)@), old(v)@.len() as int),
-        forall|i: int| 0 <= i < old(v)@.len() ==> #[trigger] final(v)@[i] == old(v)@[idiom_shuffle_perm(old(v)@, final(v)@)[i]],
+        idiom_shuffled(old(v)@, final(v)@, idiom_shuffle_perm(old(v)@, final(v)@)),
 { unimplemented!() }
 
 // ---- format!(..) (R11 idiom): message text is not modelled -----------------------------------------------------
@@ -136,3 +143,16 @@ impl<T> Mutex<T> {
         ensures r is Ok, r->Ok_0.of() == *self
     { unimplemented!() }
 }
+
+// ---- glue of Sim::client / Sim::host (R11 idioms; text / randomness not modelled) ----------------------------------
+// `world.dns.reverse(addr).map(str::to_string).unwrap_or_else(|| addr.to_string()).into()`: the node's display name
+#[verifier::external_body]
+pub fn idiom_nodename_of<W>(world: &W, addr: IpAddr) -> (r: Arc<str>) { unimplemented!() }
+// `rng.random()` for a 32-byte seed (rand::Rng::random::<[u8; 32]>): advances the generator, value unconstrained
+#[verifier::external_body]
+pub fn idiom_random_seed(rng: &mut Box<dyn RngCore>) -> (r: [u8; 32]) { unimplemented!() }
+impl SmallRng {
+    #[verifier::external_body]
+    pub fn from_seed(seed: [u8; 32]) -> (r: SmallRng) { unimplemented!() }
+}
+pub use std::future::Future;
